@@ -114,4 +114,60 @@ def rule_c(ctx):
     return r
 
 
-RULES = [rule_a, rule_b, rule_c]
+
+def rule_d(ctx):
+    r = RuleResult("C04-d", "@at-root evaluates its body inside the innermost kept ancestor: the parent handed to with_scope_for_at_root is the first copy "
+                   "made (of included.first()), not a loop-carried outer copy")
+    from . import loops as _loops
+    prog = ctx.prog()
+    b = prog.one("evaluate::visitor::Visitor::visit_at_root_rule")
+    sites = [c for c in b.calls() if (c.name() or "").endswith("Visitor::with_scope_for_at_root")]
+    if len(sites) != 1:
+        raise AnchorMissing("visit_at_root_rule: expected one call of with_scope_for_at_root, found %d" % len(sites))
+    c = sites[0]
+    nl = _loops.natural_loops(b)
+    in_loop = set().union(*nl.values()) if nl else set()
+
+    def origin(local, depth=0):
+        """Follow plain moves to the local(s) that are really defined."""
+        defs = b.defs_of(local)
+        if depth < 8 and len(defs) == 1 and isinstance(defs[0][2], dict) and defs[0][2]["k"] == "use" and "p" in defs[0][2]["op"] and not defs[0][2]["op"]["p"].get("p"):
+            return origin(defs[0][2]["op"]["p"]["l"], depth + 1)
+        return local
+
+    payloads = []
+    l0 = origin(c.args[1].place.local) if c.args[1].place is not None else None
+    for bb, i, d in (b.defs_of(l0) if l0 is not None else []):
+        if isinstance(d, dict) and d["k"] == "agg" and d.get("variant") == "Some" and "p" in d["ops"][0]:
+            payloads.append(origin(d["ops"][0]["p"]["l"]))
+    if not payloads:
+        raise AnchorMissing("visit_at_root_rule: no `Some(copy)` definition of the new parent")
+    for pl in payloads:
+        defs = b.defs_of(pl)
+        loop_defs = [bb for bb, i, d in defs if bb in in_loop]
+        key = "visit_at_root_rule|body-parent-is-innermost-copy"
+        # `included` is ordered innermost -> outermost (it is filled while walking up from self.parent); a copy variable that is
+        # reassigned in a loop ends up as the copy of the *last* element visited: fine when the loop runs over Rev<..>, wrong otherwise
+        rev = False
+        for h, blk in nl.items():
+            if any(bb in blk for bb in loop_defs):
+                hc = [b.call_at(x) for x in blk if b.call_at(x) is not None and an.tail2(b.call_at(x).callee) == "Iterator::next"]
+                rev = any(cc.fn_args and "iter::adapters::rev::Rev" in cc.fn_args[0] for cc in hc)
+        if loop_defs and rev:
+            r.ok(key, how="copies are made from the outermost kept ancestor inwards; the last copy is the innermost")
+        elif loop_defs:
+            r.violate(key, "visit_at_root_rule hands with_scope_for_at_root a copy that is reassigned inside the loop over the kept ancestors (the outermost copy): the body of "
+                      "`@at-root (without: ...)` is attached to the outermost kept ancestor instead of the innermost, so declarations land directly inside an at-rule", c.loc())
+        else:
+            first = any(not isinstance(d, dict) and (d.name() or "").endswith("CssTree::add_stmt") for bb, i, d in defs)
+            kept_root = bool(defs) and all(not isinstance(d, dict) and (d.name() or "").endswith("Visitor::trim_included") for bb, i, d in defs)
+            if first:
+                r.ok(key)
+            elif kept_root:
+                r.ok(key + "|nothing-to-copy", how="the kept root returned by trim_included is used directly")
+            else:
+                r.violate(key, "the parent of the @at-root body is not the copy created by CssTree::add_stmt for included.first()", c.loc())
+    return r
+
+
+RULES = [rule_a, rule_b, rule_c, rule_d]
